@@ -116,6 +116,9 @@ func main() {
 		core.Fatalf("no TLC schedule could be followed by the real code (%d tried): the gates no longer bind Metrics.tla to RecordTokenization", deviated)
 	}
 
+	// 2b. the per-message error table: bursts of first occurrences
+	errorBursts(run, tier)
+
 	// 3. pooled-object sharing: forced preemption at every pool event
 	sharing(run, tier)
 
